@@ -26,7 +26,7 @@ import (
 
 // c09Op is one operation of a client task.
 type c09Op struct {
-	Op       string `json:"op"` // render | render-shared | js | compile | parse
+	Op       string `json:"op"` // render | render-shared | render-struct | js | compile | parse
 	Template string `json:"template,omitempty"`
 	Data     int    `json:"data,omitempty"`
 	IJ       int    `json:"ij,omitempty"`
@@ -117,6 +117,21 @@ func smallOpts() gen.Opts {
 func execOp(op c09Op, cc *sut.Compiled, dataMaps, ijMaps []data.Map, cat soymsg.Bundle, shared map[string]*soyhtml.Renderer) opResult {
 	var r opResult
 	switch op.Op {
+	case "render-struct":
+		// the same Go struct value is converted and rendered by several tasks at once
+		var buf bytes.Buffer
+		func() {
+			defer func() {
+				if p := recover(); p != nil {
+					if simrt.IsAbort(p) {
+						panic(p)
+					}
+					r.esc = fmt.Sprint(p)
+				}
+			}()
+			r.err = cc.Tofu.Render(&buf, op.Template, structData[op.Data%len(structData)]) != nil
+		}()
+		r.out = buf.Bytes()
 	case "render-shared":
 		// one configured *Renderer per (template, $ij, catalogue), executed by several tasks at once
 		rd := shared[sharedKey(op)]
@@ -186,6 +201,87 @@ func execOp(op c09Op, cc *sut.Compiled, dataMaps, ijMaps []data.Map, cat soymsg.
 
 func opKey(op c09Op) string { return fmt.Sprintf("%+v", op) }
 
+// poolMap / poolData are Go structs with the shape of the generator's parameter pool: rendering
+// with them goes through Tofu.Render's conversion of Go values (data.New, struct options).
+type poolMap struct {
+	A, N int64
+	B    string
+	C    bool
+	Xs   []int64
+}
+
+type poolData struct {
+	A, N int64
+	B, H string
+	C    bool
+	F    float64
+	Xs   []int64
+	Ss   []string
+	M    poolMap
+	Ms   []poolMap
+	O    *string
+}
+
+func toPoolMap(d gen.DVal) poolMap {
+	var m poolMap
+	for _, kv := range d.M {
+		switch kv.K {
+		case "a":
+			m.A = kv.V.I
+		case "n":
+			m.N = kv.V.I
+		case "b":
+			m.B = kv.V.S
+		case "c":
+			m.C = kv.V.B
+		case "xs":
+			for _, x := range kv.V.L {
+				m.Xs = append(m.Xs, x.I)
+			}
+		}
+	}
+	return m
+}
+
+func toPoolData(d gen.DVal) *poolData {
+	p := &poolData{}
+	for _, kv := range d.M {
+		v := kv.V
+		switch kv.K {
+		case "a":
+			p.A = v.I
+		case "n":
+			p.N = v.I
+		case "b":
+			p.B = v.S
+		case "h":
+			p.H = v.S
+		case "c":
+			p.C = v.B
+		case "f":
+			p.F = v.F
+		case "xs":
+			for _, x := range v.L {
+				p.Xs = append(p.Xs, x.I)
+			}
+		case "ss":
+			for _, x := range v.L {
+				p.Ss = append(p.Ss, x.S)
+			}
+		case "m":
+			p.M = toPoolMap(v)
+		case "ms":
+			for _, x := range v.L {
+				p.Ms = append(p.Ms, toPoolMap(x))
+			}
+		case "o":
+			s := v.S
+			p.O = &s
+		}
+	}
+	return p
+}
+
 func sharedKey(op c09Op) string { return fmt.Sprintf("%s|%d|%v", op.Template, op.IJ, op.Cat) }
 
 // sharedRenderers builds the Renderer objects that several tasks will execute concurrently.
@@ -205,6 +301,9 @@ func sharedRenderers(cs *c09One, cc *sut.Compiled, ijMaps []data.Map, cat soymsg
 	}
 	return out
 }
+
+// structData holds the Go struct form of the current run's data sets (shared by all tasks).
+var structData []*poolData
 
 type c09Outcome struct {
 	res    *simrt.Result
@@ -438,8 +537,10 @@ func c09Generate(c *wk.Ctx, run, i int) *c09One {
 			switch x := r.Intn(100); {
 			case x < 50:
 				ops = append(ops, c09Op{Op: "render", Template: e.Template, Data: e.Data, IJ: e.IJ, Cat: useCat && r.Intn(4) != 0})
-			case x < 68:
+			case x < 62:
 				ops = append(ops, c09Op{Op: "render-shared", Template: e.Template, Data: e.Data, IJ: e.IJ, Cat: useCat})
+			case x < 68:
+				ops = append(ops, c09Op{Op: "render-struct", Template: e.Template, Data: e.Data})
 			case x < 84:
 				ops = append(ops, c09Op{Op: "js", File: r.Intn(4), ES6: r.Intn(2) == 0, Cat: useCat && r.Intn(2) == 0})
 			case x < 93:
